@@ -5,6 +5,8 @@ CONSTANTS
   ReqDual = {"d1", "d2"}
   Reloads = {"m1", "m2"}
   ToB = {"m1"}
+  Bad = {}
+  ReloadOrder = "load-first"
   Protocol = "nested-deferred"
 INVARIANTS TypeOK WholeGeneration ResponseComplete LockBalance MutualExclusion SelectUnderReadLock NoLeakAtEnd
 PROPERTIES EventuallyAllDone
